@@ -922,7 +922,11 @@ class Executor:
       n = z3.simplify(v.len)
       if z3.is_int_value(n) and n.as_long() <= 8:
         return [v.get(i) for i in range(n.as_long())]
-      return Iter(v.len, lambda i: v.get(i))
+      it = Iter(v.len, lambda i: v.get(i))
+      for a in ('keys', 'idx', 'dict'):          # a list made from a dict keeps its key index
+        if hasattr(v, 'dict_' + a):
+          setattr(it, a, getattr(v, 'dict_' + a))
+      return it
     if isinstance(v, Iter):
       return v
     if isinstance(v, VDict):
